@@ -277,6 +277,11 @@ class RMWaitWorld(CompWorld):
         self.ncb = 0
         self.log = []
         self.dirty = False             # something happened since the last drain
+        # exploration may start from a non-initial state: a fixed prefix of operations, not counted in the depth
+        for lab in params.get('prefix', []):
+            self.budget += 1
+            self.nops -= 1
+            self.apply(tuple(lab))
 
     def menu(self):
         out = []
@@ -315,10 +320,14 @@ class RMWaitWorld(CompWorld):
             raise Violation('callback_args', 'callback received the caller\'s dictionary, not a copy')
         avail = all(mgr.get_resource_capacity(r) - mgr.get_resource_usage(r) >= n for r, n in want.items() if n > 0)
         self.log.append((cb.cid, avail))
+        if cb.kind == 'give':
+            mgr.add_resources('a', 1)       # a capacity change issued from INSIDE a callback
         if cb.kind in ('take', 'again'):
             rr = mgr.reserve_resources(copy.deepcopy(want))
             if rr is not None:
                 self.res.append([rr, dict(want), 'cb'])
+            if cb.kind == 'again' and rr is not None:
+                pass
             if cb.kind == 'again':
                 self.ncb += 1
                 nc = WaitCallback(self, self.ncb, 'noop', cb.req_idx)
@@ -328,22 +337,29 @@ class RMWaitWorld(CompWorld):
     late_registered = ()
 
     def ref_check(self):
-        '''One in-order scan, re-evaluating feasibility after every callback.'''
+        '''In-order scans that re-evaluate feasibility after every callback; a change made from inside a callback
+        (capacity added) is itself followed by a check at the same instant, so scans repeat until nothing is served.'''
         exp = []
-        i = 0
-        while i < len(self.waiting):
-            cid, ri, kind = self.waiting[i]
-            req = self.requests[ri]
-            if self.fits(req):
-                exp.append((cid, True))
-                self.waiting.pop(i)
-                if kind in ('take', 'again'):
-                    self.take(req)
-                if kind == 'again':
-                    self.ref_ncb += 1
-                    self.waiting.append([self.ref_ncb, ri, 'noop'])
-            else:
-                i += 1
+        again = True
+        while again:
+            again = False
+            i = 0
+            while i < len(self.waiting):
+                cid, ri, kind = self.waiting[i]
+                req = self.requests[ri]
+                if self.fits(req):
+                    exp.append((cid, True))
+                    self.waiting.pop(i)
+                    if kind in ('take', 'again'):
+                        self.take(req)
+                    if kind == 'give':
+                        self.pool['a'][1] += 1
+                        again = True
+                    if kind == 'again':
+                        self.ref_ncb += 1
+                        self.waiting.append([self.ref_ncb, ri, 'noop'])
+                else:
+                    i += 1
         return exp
 
     def apply_op(self, label):
